@@ -365,8 +365,10 @@ def as_dict(form: dict) -> dict:
             continue
         names.append(sheet)
         if sheet in SHEETS:
-            out[sheet] = [dict(r) for r in rows]
-            out[f"{sheet}_header"] = [{h: None for h in headers_of(rows)}]
+            hs = headers_of(rows)
+            # the equivalent dict of a grid: every row lists its cells in column order
+            out[sheet] = [{h: r[h] for h in hs if h in r} for r in rows]
+            out[f"{sheet}_header"] = [{h: None for h in hs}]
     out["sheet_names"] = names
     return out
 
@@ -405,8 +407,11 @@ def as_xlsx_bytes(form: dict, typed=None) -> bytes:
         ws = wb.create_sheet(title=sheet)
         hs = headers_of(rows)
         ws.append(hs)
-        for r in rows:
+        for ri, r in enumerate(rows):
             ws.append([r.get(h) for h in hs])
+            for ci, h in enumerate(hs):
+                if isinstance(r.get(h), str) and r[h].startswith("="):
+                    ws.cell(row=ri + 2, column=ci + 1).data_type = "s"   # text, not a formula
     bio = io.BytesIO()
     wb.save(bio)
     return bio.getvalue()
